@@ -110,3 +110,8 @@ register("C19", "exploration",
          "Bounded: ~70 call recipes covering every public function of tx/props/sat/io writers/lint and the read-only Circuit methods (normal and raising argument shapes) are run on random circuits; deep snapshots before/after, object-identity checks on graph/attribute/adjacency dicts and registry, and an edit battery in both directions.",
          "snapshot = nodes+attributes+edges+name+registry (vlib.circ.snapshot); scope in evidence.bound",
          explanation="bounded stand-in of the frame/no-alias contract")
+
+register("C02", "exploration",
+         "Bounded: generated netlists of the structural subset (precedence families, random expression trees, primitive and blackbox instances, shuffled order, fuzzed layout, comments, synthetic-looking names, port mismatches) are parsed by the real pipeline and compared net by net, under every valuation, with an independent evaluator of the subset.",
+         "oracle = vlib.vlog evaluator written from the Verilog semantics of the subset; lark grammar is data, only testable by running it",
+         explanation="bounded stand-in of the parser contract")
